@@ -210,9 +210,9 @@ int main(void)
 	    }
 	} else if (strcmp(op, "addstd") == 0) {
 	    /* addstd id nh h1..hnh nm re im ...   nh = 1: single reflect (dim 1), 2: double reflect (dim 2),
-	       0: through (dim 2).  nm = nh * frequencies measured diagonal values. */
-	    int id = (int)nexti(); int nh = (int)nexti(); int hs[2] = { 0, 0 };
-	    for (int i = 0; i < nh; ++i) { int h = (int)nexti(); if (i < 2) hs[i] = h; }
+	       4: through (dim 2; the handles 0 1 1 0 are those vnacal_new_add_through uses).  nm = nh * frequencies measured diagonal values. */
+	    int id = (int)nexti(); int nh = (int)nexti(); int hs[4] = { 0, 0, 0, 0 };
+	    for (int i = 0; i < nh; ++i) { int h = (int)nexti(); if (i < 4) hs[i] = h; }
 	    int nm = (int)nexti();
 	    cx *mv = calloc(nm + 1, sizeof(cx));
 	    for (int i = 0; i < nm; ++i) { double re = nexti() / 64.0, im = nexti() / 64.0; mv[i] = re + I * im; }
@@ -230,7 +230,7 @@ int main(void)
 		    for (int k = 0; k < nf && k < nm; ++k) cells[0][k] = mv[k];
 		    for (int k = 0; k < nf && nf + k < nm; ++k) cells[3][k] = mv[nf + k];
 		    r = vnacal_new_add_double_reflect_m(vn[id], m, 2, 2, hs[0], hs[1], 1, 2);
-		} else if (dim == 2 && nh == 0) {
+		} else if (dim == 2 && nh == 4) {
 		    for (int k = 0; k < nf; ++k) { cells[1][k] = 1.0; cells[2][k] = 1.0; }
 		    r = vnacal_new_add_through_m(vn[id], m, 2, 2, 1, 2);
 		} else {
